@@ -26,6 +26,32 @@ def unsafe_sites(ctx):
     return out
 
 
+def raw_pointer_ops(ctx):
+    """dereferences of raw pointers written in the crate itself (not through std macros)"""
+    out = []
+    for b in ctx.facts.fns():
+        for bi, si, st in b.iter_stmts():
+            if b.blocks[bi]["cleanup"] or (st.get("loc") or {}).get("exp"):
+                continue
+            found = []
+
+            def walk(x):
+                if isinstance(x, dict):
+                    if "l" in x and isinstance(x.get("p"), list) and x["p"] and x["p"][0] == "deref":
+                        ty = b.local_ty(x["l"]) if x["l"] < len(b.locals) else ""
+                        if ty.startswith(("*const ", "*mut ")):
+                            found.append(ty)
+                    for v in x.values():
+                        walk(v)
+                elif isinstance(x, list):
+                    for v in x:
+                        walk(v)
+            walk(st)
+            for ty in found:
+                out.append((b, bi, st, "dereference of a raw pointer of type %s" % ty))
+    return out
+
+
 # ------------------------------------------------------------------ lemmas
 
 def lemma_accessors(ctx, rule):
@@ -111,11 +137,11 @@ def lemma_matrix_capacity(ctx, rule):
             continue
         # now: need <op> self.size
         need = a
-        mx = S.strip_refs(need)
-        if not (mx[0] == "call" and mx[1].endswith("cmp::max")):
+        mx = U.max_like(ctx, pb, need)
+        if mx is None:
             continue
         parts = []
-        for arg in mx[2]:
+        for arg in mx:
             l = B.lin(arg)
             parts.append(l)
         grow_target = bt[1] if op in ("Gt", "Ge") else bt[0]
@@ -154,6 +180,12 @@ def lemma_matrix_capacity(ctx, rule):
         elif gs[0] == "binop" and gs[1] == "Add" and (S.norm(gs[2]) == S.norm(need) or S.norm(gs[3]) == S.norm(need)):
             g_ok = True      # need + (unsigned term)
         elif gs[0] == "binop" and gs[1] == "Mul" and S.norm(gs[2]) == S.norm(need) and U.is_const(gs[3]) and S.const_value(gs[3]) >= 1:
+            g_ok = True
+        elif gs[0] == "binop" and gs[1] == "Div" and U.is_const(gs[3]) and S.strip_refs(gs[2])[0] == "binop" and \
+                S.strip_refs(gs[2])[1] == "Mul" and S.norm(S.strip_refs(gs[2])[2]) == S.norm(need) and \
+                U.is_const(S.strip_refs(gs[2])[3]) and S.const_value(S.strip_refs(gs[2])[3]) >= S.const_value(gs[3]) >= 1:
+            g_ok = True      # need * a / b with a >= b >= 1
+        elif gs[0] == "call" and gs[1].endswith("cmp::max") and any(S.norm(a_) == S.norm(need) for a_ in gs[2]):
             g_ok = True
         grow_block = abi
     # without strictness `need >= size` on the keep side would still give size >= need only for Gt/Ge forms
@@ -424,15 +456,48 @@ def _distance_facts(ctx, b, bi, t, args, facts, l1, acc_ok):
     _last_occurrence_facts(ctx, b, bi, args, facts, bufs, size_atom=size_atom, l1_ok=bool(l1))
 
 
+def _lookup_or_zero(b, sy, ea):
+    """the HashMap::get call if `ea` is "the value stored under a key, or 0 when absent", in any of the spellings
+    `*get(k).unwrap_or(&0)`, `get(k).copied().unwrap_or(0)`, `match get(k) { Some(&i) => i, None => 0 }`"""
+    def payload_of_get(x):
+        x = S.strip_refs(x)
+        while isinstance(x, tuple) and x and x[0] in ("field", "down", "deref", "ref"):
+            x = S.strip_refs(x[1])
+        if isinstance(x, tuple) and x and x[0] == "call" and x[1].endswith(("Option::copied", "Option::cloned")) and x[2]:
+            x = S.strip_refs(x[2][0])
+        if isinstance(x, tuple) and x and x[0] == "call" and x[1].endswith("HashMap::get"):
+            return x
+        return None
+    if ea[0] == "call" and ea[1].endswith("Option::unwrap_or") and S.const_value(S.strip_refs(ea[2][1])) == 0:
+        return payload_of_get(ea[2][0])
+    if ea[0] == "var":
+        ds = b.defs().get(ea[1], [])
+        gets, zero = [], False
+        for kind, dbi, dsi, node in ds:
+            if kind != "assign":
+                return None
+            e = S.strip_refs(sy.rvalue(node["rv"]))
+            if U.is_const(e) and S.const_value(e) == 0:
+                zero = True
+                continue
+            g = payload_of_get(e) if e[0] in ("field", "down", "deref") else None
+            if g is None:
+                return None
+            gets.append(g)
+        if zero and gets and all(S.norm(g) == S.norm(gets[0]) for g in gets):
+            return gets[0]
+    return None
+
+
 def _last_occurrence_facts(ctx, b, site_bi, args, facts, bufs, size_atom=None, l1_ok=False):
     sy = ctx.sym(b)
     cfg = ctx.cfg(b)
     for a in args[1:3]:
         ea = S.strip_refs(B.devar(a))
         # (i) value read from a HashMap buffer: *unwrap_or(HashMap::get(map, _), &0)
-        if ea[0] == "call" and ea[1].endswith("Option::unwrap_or") and S.const_value(S.strip_refs(ea[2][1])) == 0:
-            g = S.strip_refs(ea[2][0])
-            if g[0] == "call" and g[1].endswith("HashMap::get"):
+        g = _lookup_or_zero(b, sy, ea)
+        if g is not None:
+            if True:
                 mkey = B.norm_atom(g[2][0])
                 if mkey in bufs:
                     evs = [(x, tt, m) for (x, tt, rk, m) in U.receiver_events(ctx, b) if B.norm_atom(rk) == mkey]
@@ -565,7 +630,20 @@ def lemma_postings(ctx, rule):
 
 def run(ctx):
     sites = discharge_sites(ctx)
-    ctx.floor("R19", "unsafe_call_sites", len(sites), 23)
+    # vacuity guard: the analysis must see at least one unsafe operation per `unsafe { }` block of the sources (fewer
+    # unsafe blocks than before is never a violation; losing sight of one is)
+    nblocks, per_file = U.lexical_unsafe_blocks(ctx.facts.meta.get("repo") or "/repo")
+    ctx.count("unsafe_blocks_in_source", nblocks)
+    raw = raw_pointer_ops(ctx)
+    if len(sites) + len(raw) >= nblocks:
+        ctx.ok("R19", "coverage:unsafe-blocks", "-", "%d unsafe operations analysed for %d `unsafe` blocks in the sources %s"
+               % (len(sites) + len(raw), nblocks, per_file), kind="S")
+    else:
+        ctx.fail("R19", "coverage:unsafe-blocks", "-", "the sources contain %d `unsafe` blocks %s but only %d unsafe operations were "
+                 "found in the MIR: some unsafe code is not analysed (fail closed)" % (nblocks, per_file, len(sites) + len(raw)), kind="S")
+    for (b, bi, st, what) in raw:
+        ctx.fail("R19", "raw-pointer:%s" % b.id, where(b, bi, st), "unsafe operation outside the analysed idioms (%s): no bound "
+                 "argument applies to it" % what, kind="S")
     n_ob = ctx.counts.get("bounds_obligations", 0)
     return info("Every call to an unsafe fn in non-test code (macro-generated std calls excluded) is an obligation: slice accesses "
                 "need index < len, matrix accesses need row < size and col < size individually. Obligations are discharged in a "
